@@ -235,6 +235,7 @@ class Sim:
         self.tape = []
         self.init_start_times = []
         self.rejects = 0
+        self.stale_clicks = 0
         self.shape_errors = []
         self.size = sc["tower_size"]
         self.server_state = [True] * self.size
@@ -362,6 +363,15 @@ class Sim:
             self.server_state[bell - 1] = not self.server_state[bell - 1]
             self.broadcast_strike(t, bell, "human")
 
+    def stale_click(self, t, bell):
+        """A click that carries an out-of-date stroke (a fast double click, a second device).  The server
+        does not move the bell but - like the real Ringing Room, which answers a disagreeing c_bell_rung with
+        s_bell_rung{disagree: true} - still broadcasts the (unchanged) state with that bell as `who_rang`."""
+        if 1 <= bell <= self.size:
+            self.stale_clicks += 1
+            self.push(t + self.latency, "deliver",
+                      {"m": "bell_rung", "state": list(self.server_state), "who": bell})
+
     def on_emit(self, event, data):
         if not isinstance(data, dict) or data.get("tower_id") != self.tower_id:
             self.shape_errors.append(f"{event}: tower_id missing or wrong in {data}")
@@ -377,6 +387,8 @@ class Sim:
                 self.broadcast_strike(t, bell, "wheatley")
             else:
                 self.rejects += 1
+                self.push(t + self.latency, "deliver",
+                          {"m": "bell_rung", "state": list(self.server_state), "who": bell})
         elif event == "c_call":
             self.rec(["call", data["call"]])
             self.push(t + self.latency, "deliver", {"m": "call", "call": data["call"]})
